@@ -642,3 +642,112 @@ Section OutputP.
              (okey * list T) fst (fun it => extend_with T (snd it)) l []). constructor.
   Qed.
 End OutputP.
+
+(* ------------------------------------------------------------------ *)
+(* the FILLING stack (value.rs:402-462)                                 *)
+(* ------------------------------------------------------------------ *)
+Section FillingP.
+  Variable T : Type.
+  Variable key : Type.
+  Variable key_eqb : key -> key -> bool.
+  Variable body_of : key -> job T key.
+
+  Notation frender' := (frender T key key_eqb body_of).
+
+  (* push/pop strictly bracketed: whatever the outcome (ok, None, panic), the stack is as before *)
+  Lemma frender_balanced : forall fuel st j r st',
+    frender' fuel st j = Some (r, st') -> st' = st.
+  Proof.
+    induction fuel as [|f IH]; intros st j r st' H; simpl in H; [discriminate|].
+    destruct j as [t| | |t kids|k fb].
+    - inversion H; reflexivity.
+    - inversion H; reflexivity.
+    - inversion H; reflexivity.
+    - revert st t H. induction kids as [|kd ks IHk]; intros st acc H.
+      + inversion H; reflexivity.
+      + destruct (frender' f st kd) as [[o st1]|] eqn:E; [|discriminate].
+        pose proof (IH _ _ _ _ E) as ->.
+        destruct o; try (inversion H; reflexivity).
+        apply (IHk _ _ H).
+    - destruct (fmem key key_eqb k st).
+      + inversion H; reflexivity.
+      + destruct (frender' f (k :: st) (body_of k)) as [[o st1]|] eqn:E; [|discriminate].
+        pose proof (IH _ _ _ _ E) as ->. inversion H; reflexivity.
+  Qed.
+
+  (* consecutive renderings on one thread all start from the empty stack, so the i-th result is
+     what a fresh thread / process computes, whatever was rendered (or panicked) before *)
+  Lemma frender_seq_independent fuel : forall js,
+    frender_seq T key key_eqb body_of fuel [] js =
+    (map (fun j => option_map fst (frender' fuel [] j)) js, []).
+  Proof.
+    induction js as [|j r IH]; simpl; [reflexivity|].
+    destruct (frender' fuel [] j) as [[o st1]|] eqn:E; simpl.
+    - pose proof (frender_balanced _ _ _ _ _ E) as ->. rewrite IH. reflexivity.
+    - rewrite IH. reflexivity.
+  Qed.
+
+  (* more fuel never changes an answer *)
+  Lemma frender_mono : forall fuel st j x, frender' fuel st j = Some x -> frender' (S fuel) st j = Some x.
+  Proof.
+    induction fuel as [|f IH]; intros st j x H; [discriminate|].
+    destruct j as [t| | |t kids|k fb]; try exact H.
+    - change (frender' (S (S f)) st (JNode T key t kids)) with
+        ((fix go (ks : list (job T key)) (st : list key) (acc : list T) {struct ks} :=
+            match ks with
+            | [] => Some (ROk T acc, st)
+            | k :: r => match frender' (S f) st k with
+                        | Some (ROk _ o, st1) => go r st1 (acc ++ o)
+                        | other => other
+                        end
+            end) kids st t).
+      simpl in H. revert st t H. induction kids as [|kd ks IHk]; intros st acc H; [exact H|].
+      destruct (frender' f st kd) as [[o st1]|] eqn:E; [|discriminate].
+      rewrite (IH _ _ _ E). destruct o; try exact H. apply IHk; exact H.
+    - simpl in H. change (frender' (S (S f)) st (JFill T key k fb)) with
+        (if fmem key key_eqb k st then Some (ROk T fb, st)
+         else match frender' (S f) (k :: st) (body_of k) with
+              | Some (r, st1) => Some (r, tl st1)
+              | None => None
+              end).
+      destruct (fmem key key_eqb k st); [exact H|].
+      destruct (frender' f (k :: st) (body_of k)) as [[o st1]|] eqn:E; [|discriminate].
+      rewrite (IH _ _ _ E). exact H.
+  Qed.
+End FillingP.
+
+(* the address component of the keys is only ever compared for equality: an injective renaming of
+   the keys (another process, another TypeSpace holding the same content at other addresses)
+   renders the same tokens *)
+Section FillingRename.
+  Variable T : Type.
+  Variables key key' : Type.
+  Variable key_eqb : key -> key -> bool.
+  Variable key_eqb' : key' -> key' -> bool.
+  Variable ren : key -> key'.
+  Hypothesis ren_eqb : forall a b, key_eqb' (ren a) (ren b) = key_eqb a b.
+  Variable body_of : key -> job T key.
+  Variable body_of' : key' -> job T key'.
+  Hypothesis body_ren : forall k, body_of' (ren k) = rename_job ren (body_of k).
+
+  Lemma fmem_ren k st : fmem key' key_eqb' (ren k) (map ren st) = fmem key key_eqb k st.
+  Proof.
+    unfold fmem. induction st as [|a st IH]; simpl; [reflexivity|]. rewrite ren_eqb, IH. reflexivity.
+  Qed.
+
+  Lemma frender_rename : forall fuel st j,
+    frender T key' key_eqb' body_of' fuel (map ren st) (rename_job ren j) =
+    rename_result ren (frender T key key_eqb body_of fuel st j).
+  Proof.
+    induction fuel as [|f IH]; intros st j; [reflexivity|].
+    destruct j as [t| | |t kids|k fb]; try reflexivity.
+    - simpl. revert st t. induction kids as [|kd ks IHk]; intros st acc; [reflexivity|].
+      simpl. rewrite IH.
+      destruct (frender T key key_eqb body_of f st kd) as [[o st1]|]; simpl; [|reflexivity].
+      destruct o; try reflexivity. apply IHk.
+    - simpl. rewrite fmem_ren. destruct (fmem key key_eqb k st); [reflexivity|].
+      rewrite body_ren. change (ren k :: map ren st) with (map ren (k :: st)). rewrite IH.
+      destruct (frender T key key_eqb body_of f (k :: st) (body_of k)) as [[o st1]|]; simpl; [|reflexivity].
+      destruct st1; reflexivity.
+  Qed.
+End FillingRename.
